@@ -327,3 +327,171 @@ Proof.
   { rewrite map_app in ND. apply NoDup_remove_2 in ND. intros Hin. apply ND. apply in_or_app. left. exact Hin. }
   rewrite map_set_fresh by exact F. rewrite IH; rewrite <- app_assoc; [reflexivity|exact ND].
 Qed.
+
+(* ------------------------------------------------------------------------------------------- *)
+(* getElem walks the tree from the root, child by child; the model looks the whole path up in its flat store. The two
+   agree on every store the parser produces: such a store holds, with every element, all its ancestors. *)
+Definition present (s : store) (K : key) : Prop := lookup s K <> None.
+Definition closed (s : store) : Prop := forall n K, present s (n :: K) -> K <> [] -> present s K.
+Definition find_in (s : store) (K : key) (n : gstr) : option key * bool :=
+  match lookup s (n :: K) with Some _ => (Some (n :: K), true) | None => (None, false) end.
+
+Lemma closed_suffix s : closed s -> forall pre X, present s (pre ++ X) -> X <> [] -> present s X.
+Proof.
+  intros C. induction pre as [|n pre IH]; intros X H HX; [exact H|]. apply IH; [|exact HX].
+  apply (C n); [exact H|]. destruct pre; destruct X; cbn; try discriminate. contradiction.
+Qed.
+
+Lemma fold_inr {H} (f : H -> gstr -> option H * bool) r : forall v,
+  fold_left (fun (g_st : option (option H + (option H * bool))) (g_item : gstr) =>
+     match g_st with
+     | None => None
+     | Some (inr g_r) => Some (inr g_r)
+     | Some (inl g_targetNode) =>
+         if gs_is_some g_targetNode
+         then (let '(g_t, g_ok) := gs_find f g_targetNode g_item in
+               if negb g_ok then Some (inr (None, true)) else (let g_targetNode := g_t in Some (inl g_targetNode)))
+         else None
+     end) v (Some (inr r)) = Some (inr r).
+Proof. induction v as [|n v IH]; [reflexivity|]. cbn [fold_left]. exact IH. Qed.
+
+Lemma walk_fold s : closed s -> forall v K, present s K -> K <> [] ->
+  fold_left (fun (g_st : option (option key + (option key * bool))) (g_item : gstr) =>
+     match g_st with
+     | None => None
+     | Some (inr g_r) => Some (inr g_r)
+     | Some (inl g_targetNode) =>
+         if gs_is_some g_targetNode
+         then (let '(g_t, g_ok) := gs_find (find_in s) g_targetNode g_item in
+               if negb g_ok then Some (inr (None, true)) else (let g_targetNode := g_t in Some (inl g_targetNode)))
+         else None
+     end) v (Some (inl (Some K))) =
+  Some (match lookup s (rev v ++ K) with Some _ => inl (Some (rev v ++ K)) | None => inr (None, true) end).
+Proof.
+  intros C. induction v as [|n v IH]; intros K HK HN.
+  - cbn [fold_left rev app]. destruct (lookup s K) eqn:L; [reflexivity|]. exfalso. exact (HK L).
+  - cbn [fold_left gs_is_some gs_find rev]. rewrite <- app_assoc. cbn [app].
+    destruct (lookup s (n :: K)) as [i|] eqn:L.
+    + assert (FI : find_in s K n = (Some (n :: K), true)) by (unfold find_in; rewrite L; reflexivity).
+      rewrite FI. cbv beta iota zeta. cbn [negb]. apply IH; [unfold present; rewrite L; discriminate|discriminate].
+    + assert (FI : find_in s K n = (None, false)) by (unfold find_in; rewrite L; reflexivity).
+      rewrite FI. cbv beta iota zeta. cbn [negb]. rewrite fold_inr. match goal with |- context [lookup s ?X] => destruct (lookup s X) eqn:L2 end; [|reflexivity].
+      exfalso. assert (P : present s (n :: K)).
+      { apply (closed_suffix s C (rev v)); [|discriminate]. unfold present. unfold gstr, key, bytes in *. rewrite L2. discriminate. }
+      exact (P L).
+Qed.
+
+Theorem tr_getElem_walk s v : closed s -> present s [root_name] ->
+  tr_getElem (find_in s) (Some [root_name]) v =
+  Some (match lookup s (key_of_vec v) with Some _ => (Some (key_of_vec v), false) | None => (None, true) end).
+Proof.
+  intros C R. unfold tr_getElem, key_of_vec. rewrite frev_rev. pose proof (walk_fold s C v [root_name] R) as W.
+  cbv zeta in W |- *. unfold gstr, key, bytes in *. rewrite W by discriminate.
+  match goal with |- context [lookup s ?X] => destruct (lookup s X) end; reflexivity.
+Qed.
+
+(* the invariant of the loop of InitFromBytes: the store is closed and holds the root and every element of the stack *)
+Definition stack_present (s : store) (stk : key) : Prop := forall pre X, stk = pre ++ X -> X <> [] -> present s X.
+Definition walk_inv (s : store) (stk : key) : Prop := closed s /\ present s [root_name] /\ stack_present s stk.
+
+Lemma is_suffix_length a K : is_suffix a K = true -> (length a <= length K)%nat.
+Proof. intros H. apply is_suffix_iff in H. destruct H as [pre ->]. rewrite app_length. lia. Qed.
+Lemma is_suffix_cons_r a n K : is_suffix a K = true -> is_suffix a (n :: K) = true.
+Proof. intros H. apply is_suffix_iff in H. destruct H as [pre ->]. apply is_suffix_iff. exists (n :: pre). reflexivity. Qed.
+
+Lemma present_do_line s K1 l1 X : present (do_line s K1 l1) X <->
+  match key_of_line l1 with
+  | [] => present s X
+  | k1 => X = k1 :: K1 \/ (is_suffix (k1 :: K1) X = false /\ present s X)
+  end.
+Proof.
+  unfold present. rewrite lookup_do_line. cbv zeta.
+  assert (E : (if key_eqb K1 X then option_map (with_line l1) (lookup s X) else lookup s X) <> None <-> lookup s X <> None).
+  { destruct (key_eqb K1 X); [|tauto]. destruct (lookup s X); cbn; split; intros H; try discriminate; assumption. }
+  destruct (key_of_line l1) as [|c r]; [exact E|].
+  unfold key, bytes in *. destruct (key_eqb ((c :: r) :: K1) X) eqn:E1.
+  - apply key_eqb_eq in E1. split; [intros _; left; symmetry; exact E1|intros _; discriminate].
+  - destruct (is_suffix ((c :: r) :: K1) X) eqn:E2.
+    + split; [intros H; contradiction|]. intros [H|[H _]]; [subst X; rewrite key_eqb_refl in E1; discriminate|discriminate].
+    + rewrite E. split; [intros H; right; split; [reflexivity|exact H]|].
+      intros [H|[_ H]]; [subst X; rewrite key_eqb_refl in E1; discriminate|exact H].
+Qed.
+
+Lemma walk_inv_do_line s stk line : stk <> [] -> walk_inv s stk -> walk_inv (do_line s stk line) stk.
+Proof.
+  intros NE (C & R & SP).
+  assert (PS : present s stk) by (apply (SP [] stk); [reflexivity|exact NE]).
+  destruct (key_of_line line) as [|c r] eqn:KL.
+  - assert (EQ : forall X, present (do_line s stk line) X <-> present s X) by (intros X; rewrite present_do_line, KL; cbv beta iota; split; intro HH; exact HH).
+    repeat split.
+    + intros n K H HK. apply EQ. apply (C n); [apply EQ; exact H|exact HK].
+    + apply EQ. exact R.
+    + intros pre X E HX. apply EQ. apply (SP pre X E HX).
+  - assert (EQ : forall X, present (do_line s stk line) X <-> (X = (c :: r) :: stk \/ (is_suffix ((c :: r) :: stk) X = false /\ present s X)))
+      by (intros X; rewrite present_do_line, KL; cbv beta iota; split; intro HH; exact HH).
+    assert (SHORT : forall X, (length X <= length stk)%nat -> is_suffix ((c :: r) :: stk) X = false).
+    { intros X HL. destruct (is_suffix ((c :: r) :: stk) X) eqn:E; [|reflexivity]. apply is_suffix_length in E. cbn in E. lia. }
+    repeat split.
+    + intros n K H HK. apply EQ. apply EQ in H. destruct H as [H|[H1 H2]].
+      * injection H as -> ->. right. split; [apply SHORT; lia|exact PS].
+      * destruct (is_suffix ((c :: r) :: stk) K) eqn:E.
+        -- apply (is_suffix_cons_r _ n) in E. unfold key, bytes in *. rewrite E in H1. discriminate.
+        -- right. split; [reflexivity|]. apply (C n); assumption.
+    + apply EQ. right. split; [|exact R]. apply SHORT. destruct stk; [contradiction|]. cbn. lia.
+    + intros pre X E HX. apply EQ. right. split; [|apply (SP pre X E HX)]. apply SHORT. subst stk. rewrite app_length. lia.
+Qed.
+
+Lemma walk_inv_segments : forall segs s stk s', stk <> [] -> walk_inv s stk -> do_segments s stk segs = Some s' -> walk_inv s' stk.
+Proof.
+  induction segs as [|seg r IH]; intros s stk s' NE I H; cbn [do_segments] in H; [inversion H; subst; exact I|].
+  destruct (max_scan_token <=? N.of_nat (length seg))%N; [discriminate|].
+  destruct (content_line seg) as [b|]; [|apply (IH s stk s' NE I H)]. apply (IH (do_line s stk b) stk s' NE); [apply walk_inv_do_line; assumption|exact H].
+Qed.
+
+Lemma walk_inv_loop : forall ts s stk t, walk_inv s stk -> conf_loop ts s stk = Ok t -> closed t /\ present t [root_name].
+Proof.
+  induction ts as [|tok ts IH]; intros s stk t I H.
+  - destruct stk; cbn in H; [discriminate|]. inversion H; subst. destruct I as (C & R & _). auto.
+  - destruct stk as [|top below]; [cbn in H; discriminate|]. destruct I as (C & R & SP).
+    assert (PS : present s (top :: below)) by (apply (SP [] (top :: below)); [reflexivity|discriminate]).
+    destruct tok as [n|n|tx]; cbn [conf_loop] in H.
+    + destruct (lookup s (n :: top :: below)) eqn:L.
+      * apply (IH s (n :: top :: below) t); [|exact H]. repeat split; try assumption.
+        intros pre X E HX. destruct pre as [|m pre]; cbn in E.
+        -- subst X. unfold present. rewrite L. discriminate.
+        -- injection E as _ E. apply (SP pre X E HX).
+      * apply (IH ((n :: top :: below, new_node) :: s) (n :: top :: below) t); [|exact H].
+        assert (EQ : forall X, present ((n :: top :: below, new_node) :: s) X <-> (X = n :: top :: below \/ present s X)).
+        { intros X. unfold present. cbn [lookup]. destruct (key_eqb (n :: top :: below) X) eqn:E.
+          - apply key_eqb_eq in E. split; [intros _; left; symmetry; exact E|intros _; discriminate].
+          - split; [intros HH; right; exact HH|]. intros [HH|HH]; [subst X; rewrite key_eqb_refl in E; discriminate|exact HH]. }
+        repeat split.
+        -- intros m K HP HK. apply EQ. apply EQ in HP. destruct HP as [HP|HP].
+           ++ injection HP as -> ->. right. exact PS.
+           ++ right. apply (C m); assumption.
+        -- apply EQ. right. exact R.
+        -- intros pre X E HX. apply EQ. destruct pre as [|m pre]; cbn in E; [left; symmetry; exact E|].
+           injection E as _ E. right. apply (SP pre X E HX).
+    + destruct (bytes_eqb top n); [|discriminate]. apply (IH s below t); [|exact H]. repeat split; try assumption.
+      intros pre X E HX. apply (SP (top :: pre) X); [cbn; rewrite E; reflexivity|exact HX].
+    + destruct (do_segments s (top :: below) (split_lines tx)) as [s'|] eqn:D; [|discriminate].
+      apply (IH s' (top :: below) t); [|exact H]. apply (walk_inv_segments (split_lines tx) s (top :: below) s'); [discriminate| |exact D]. repeat split; assumption.
+Qed.
+
+Theorem parse_store_closed bs t : parse bs = Ok t -> closed t /\ present t [root_name].
+Proof.
+  intros H. unfold parse in H. destruct (raw_status bs); try discriminate.
+  destruct (balanced (raw_tokens bs)); [|discriminate].
+  apply (walk_inv_loop (raw_tokens bs) init_store [root_name] t); [|exact H]. repeat split.
+  - intros n K HP HK. unfold present, init_store in HP. cbn [lookup] in HP.
+    destruct (key_eqb [root_name] (n :: K)) eqn:E; [|contradiction]. apply key_eqb_eq in E. injection E as _ E. subst K. contradiction.
+  - unfold present. cbn. discriminate.
+  - intros pre X E HX. destruct pre as [|m pre]; cbn in E; [subst X; unfold present; cbn; discriminate|].
+    injection E as _ E. destruct pre; destruct X; cbn in E; try discriminate. contradiction.
+Qed.
+
+(* getElem on every store the parser produces = the model's direct lookup *)
+Theorem getElem_translated bs t v : parse bs = Ok t ->
+  tr_getElem (find_in t) (Some [root_name]) v =
+  Some (match lookup t (key_of_vec v) with Some _ => (Some (key_of_vec v), false) | None => (None, true) end).
+Proof. intros H. destruct (parse_store_closed bs t H) as [C R]. apply tr_getElem_walk; assumption. Qed.
